@@ -177,11 +177,16 @@ def judge(step, size, func, start, pre):
         if not cond:
             probs.append(("%s:%s" % (step, key), msg))
 
+    def rel_close(d1, d2):
+        # relative to the largest coefficient involved (a step of size 1e-9 divides by it: coefficients of order 1e9)
+        big = max([1] + [abs(v_) for v_ in d1.values()] + [abs(v_) for v_ in d2.values()])
+        return R.close(d1, d2, 1e-12 * big)
+
     def same_p(a, b):
-        return R.close(cp(a), b if isinstance(b, dict) else cp(b), 1e-12)
+        return rel_close(cp(a), b if isinstance(b, dict) else cp(b))
 
     def same_e(a, b):
-        return R.close(ce(a), b if isinstance(b, dict) else ce(b), 1e-12)
+        return rel_close(ce(a), b if isinstance(b, dict) else ce(b))
 
     def sample_at(fn, x, among=None):
         lst = among if among is not None else after["points"][id(fn)]
